@@ -163,5 +163,6 @@ _targets_before_observers = targets
 
 def targets():      # noqa: F811
     from . import purity
-    from . import diagrams
-    return _targets_before_observers() + [purity.target_observers(["circuit/base", "circuit/series", "circuit/parallel", "circuit/circuit", "circuit/circuit_builder", "circuit/transmission_line_model"], "circuit observers keep no state")] + diagrams.targets()
+    from . import diagrams, traversal
+    # shared with C16: the identifier map the diagram routines look names up in is total on the circuit's elements
+    return traversal.targets() + _targets_before_observers() + [purity.target_observers(["circuit/base", "circuit/series", "circuit/parallel", "circuit/circuit", "circuit/circuit_builder", "circuit/transmission_line_model"], "circuit observers keep no state")] + diagrams.targets()
